@@ -162,6 +162,31 @@ func VH_C08_sort(vm *VM, inst int) {
 			verify(vIdenticalV(kgot[i], ref[i]), "keysort/2: not the stable sort by key")
 		}
 	}
+	if !symbolicRun() {
+		// Native replay only: the executor decides stability with a model of sort.Slice that may place ties in any order,
+		// whatever the length; Go's own sort.Slice happens to be stable up to 12 elements. A list of 60 pairs over 3 keys
+		// lets the native run show the same defect.
+		var long []Term
+		for i := 0; i < 60; i++ {
+			long = append(long, xMinus.Apply(Integer(i%3), Integer(i)))
+		}
+		lo := NewVariable()
+		var lgot []Term
+		ok, err := KeySort(vm, List(long...), lo, func(e *Env) *Promise {
+			it := ListIterator{List: lo, Env: e}
+			for it.Next() {
+				lgot = append(lgot, vPlain(it.Current(), e))
+			}
+			return Bool(true)
+		}, nil).Force(context.Background())
+		verify(ok && err == nil && len(lgot) == 60, "keysort/2 failed on a list of 60 pairs")
+		for i := 1; i < len(lgot); i++ {
+			a, b := lgot[i-1].(Compound), lgot[i].(Compound)
+			if a.Arg(0) == b.Arg(0) {
+				verify(a.Arg(1).(Integer) < b.Arg(1).(Integer), "keysort/2: not the stable sort by key")
+			}
+		}
+	}
 	reach("c08/sort", true)
 }
 
